@@ -96,6 +96,7 @@ where
                 // the constraint. The constraint implies that min(u) <= max(v).
                 let vmax = vdomain.max();
                 let umin = udomain.min();
+                let walked = [uwalk.clone(), vwalk.clone()];
                 Ok(state
                     .process_domain(
                         &uwalk,
@@ -105,7 +106,7 @@ where
                         &vwalk,
                         Rc::new(vdomain.drop_before(|v| umin <= *v).ok_or(())?),
                     )?
-                    .with_constraint(self))
+                    .with_constraint_or_rerun(self, &walked)?)
             }
             (Some(udomain), None) if vwalk.is_number() => {
                 // The variable `u` has an assigned domain, and variable `v` has been bound
